@@ -13,6 +13,7 @@ Ops == [op : {"SetName"}, p : Parents, n : Names, v : Vals]
        \cup [op : {"SetIdx"}, p : Parents, n : Names, i : 0..MaxKids, v : Vals]
        \cup [op : {"SetObj"}, p : Parents, n : Names, c : Obj]
        \cup [op : {"SetAt"}, p : Parents, i : 1..MaxKids, v : Vals]
+       \cup [op : {"SetAtObj"}, p : Parents, i : 1..MaxKids, c : Obj]
        \cup [op : {"AddNew", "DelName"}, p : Parents, n : Names]
        \cup [op : {"AddObj", "Reparent", "Remove"}, p : Parents, c : Obj]
        \cup [op : {"Insert"}, p : Parents, i : 1..(MaxKids + 1), c : Obj]
